@@ -252,7 +252,7 @@ impl TableProvider {
         }
     }
 
-    fn reason_excluded(&self, name_w: u32) -> StringId {
+    pub fn reason_excluded(&self, name_w: u32) -> StringId {
         let id = 2 * self.maps.nid(name_w).0;
         self.strings
             .borrow_mut()
@@ -261,7 +261,7 @@ impl TableProvider {
         StringId(id)
     }
 
-    fn reason_unknown(&self, name_w: u32) -> StringId {
+    pub fn reason_unknown(&self, name_w: u32) -> StringId {
         let id = 2 * self.maps.nid(name_w).0 + 1;
         self.strings
             .borrow_mut()
